@@ -11,7 +11,8 @@ use cstree::util::NodeOrToken;
 struct View {
     tree:   usize,
     path:   Vec<usize>,
-    slices: Vec<(u32, u32)>,
+    /// (start, end, given as an `ops` range rather than a `TextRange`); an open end is `None`
+    slices: Vec<(Option<u32>, Option<u32>, bool)>,
 }
 
 fn node_at(root: &SyntaxNode<K>, path: &[usize]) -> Option<SyntaxNode<K>> {
@@ -38,8 +39,14 @@ fn with_view<R>(
     let node = node_at(&roots[v.tree], &v.path).ok_or_else(|| "NO-NODE".to_string())?;
     catch(|| {
         let mut t = node.resolve_text(interner);
-        for (a, b) in &v.slices {
-            t = t.slice(TextRange::new(TextSize::from(*a), TextSize::from(*b)));
+        for (a, b, ops_range) in &v.slices {
+            t = match (*a, *b, *ops_range) {
+                (Some(a), Some(b), false) => t.slice(TextRange::new(TextSize::from(a), TextSize::from(b))),
+                (Some(a), Some(b), true) => t.slice(TextSize::from(a)..TextSize::from(b)),
+                (Some(a), None, _) => t.slice(TextSize::from(a)..),
+                (None, Some(b), _) => t.slice(..TextSize::from(b)),
+                (None, None, _) => t.slice(..),
+            };
         }
         f(t)
     })
@@ -82,13 +89,14 @@ pub fn run_x(args: &[&str]) -> String {
                     out.push("-".to_string());
                 }
             }
-            "slice" => match view(1) {
+            "slice" | "sliceo" => match view(1) {
                 None => {
                     views.push(None);
                     out.push("-".into());
                 }
                 Some(mut v) => {
-                    v.slices.push((num(2), num(3)));
+                    let end = |i: usize| -> Option<u32> { if p[i] == "_" { None } else { Some(num(i)) } };
+                    v.slices.push((end(2), end(3), p[0] == "sliceo"));
                     match with_view(&roots, &interner, &v, |t| u32::from(t.len())) {
                         Ok(l) => {
                             out.push(format!("len={l}"));
